@@ -1259,6 +1259,9 @@ def generate(rng, tier):
             cases.append({"kind": "dicke", "n": n, "k": k})
     for n, k in [(0, 0), (-1, 0), (3, 4), (3, -1), (1, 2), (0, 1), (5, 6), (2, -2)]:
         cases.append({"kind": "dicke", "n": n, "k": k})
+    # registers across the 16-bit / 2^16-amplitude mark (oracle only: the exact model is not asked for 2^17 amplitudes)
+    for n, k in ([(15, 2), (16, 1), (16, 15), (17, 1), (17, 2), (17, 16), (17, 17), (18, 3), (20, 1)] + ([(19, 18), (21, 2)] if big else [])):
+        cases.append({"kind": "dicke", "n": n, "k": k, "wide": True})
     for _ in range(2000 if big else 60):
         bits = rng.choice([4, 8, 16, 40, 70, 200])
         cases.append({"kind": "gosper", "v": rng.randrange(1, 2 ** bits)})
@@ -1598,6 +1601,9 @@ def run_impl(c):
                 res["again_error"] = repr(e)[:100]
         return res
     if k == "gosper":
+        if not hasattr(W, "_get_next_number_with_same_hamming_weight") or not hasattr(W, "_most_significant_set_bit"):
+            # the private helpers are not part of the property: their absence breaks the correspondence, it is not a failing input
+            return {"helper_missing": True}
         nxt = W._get_next_number_with_same_hamming_weight(c["v"])
         return {"next": int(nxt), "msb": int(W._most_significant_set_bit(int(nxt))), "lowbit": c["v"] & -c["v"]}
     if k == "flip":
@@ -1761,7 +1767,7 @@ def requests(c, out):
         col = c.get("container") == "matrix"
         return [("run", {"vec": c["vec"], "col": col, "ops": [_strip_on(c["ops"][t]) for t in lin]}) for lin in lins]
     if k == "dicke":
-        return [("dicke", {"n": c["n"], "k": c["k"]})]
+        return [] if c.get("wide") else [("dicke", {"n": c["n"], "k": c["k"]})]
     if k == "gosper":
         return [("gosper", {"v": c["v"]})]
     if k == "flip":
@@ -1894,6 +1900,8 @@ def compare(c, out, resp):
                 return f"dicke probability at {i}: model {probs[i]}, implementation {p}"
         return None
     if k == "gosper":
+        if out.get("helper_missing"):
+            return "the helpers _get_next_number_with_same_hamming_weight / _most_significant_set_bit are gone from wavefunction.py (the model's nextSameWeight / msb mirror them)"
         if r["next"] != [out["next"]] or r["msb"] != [out["msb"]] or r["lowbit"] != [out["lowbit"]]:
             return f"next-same-weight({c['v']}): model {r}, implementation {out}"
         return None
@@ -2143,6 +2151,8 @@ def oracle(c, out):
                                           f"result has support {out['again_support'][:6]}, expected {want[:6]}")
         return None
     if k == "gosper":
+        if out.get("helper_missing"):
+            return None   # (not a sentence of the property; the correspondence reports it)
         v = c["v"]
         s = "0" + bin(v)[2:]
         i = s.rfind("01")
